@@ -73,6 +73,44 @@ theorem RegOK.modTask {p : Pool} (hr : RegOK p) (t : Nat) (f : PTask → PTask)
     · rw [hf] at hrel; exact hrel
     · exact hrel
 
+/-- (L1') the same for an update whose effect is known only on the record that is there -/
+theorem RegOK.modTaskAt {p : Pool} (hr : RegOK p) (t : Nat) (f : PTask → PTask) (x : PTask) (hx : p.tasks[t]? = some x)
+    (hf : (f x).released = x.released)
+    (hc : t ∈ p.cancelledR → (f x).phase ≠ .created ∧ (f x).phase ≠ .inWorker) : RegOK (p.modTask t f) := by
+  have key : ∀ (i : Nat) (tk : PTask), p.tasks[i]? = some tk →
+      ∃ tk', (p.modTask t f).tasks[i]? = some tk' ∧ tk'.released = tk.released ∧ (i ≠ t → tk' = tk) ∧ (i = t → tk' = f tk) := by
+    intro i tk h
+    by_cases e : t = i
+    · subst e
+      rw [hx] at h; cases h
+      exact ⟨f x, getElem?_modify_eq _ _ _ _ hx, hf, fun n => absurd rfl n, fun _ => rfl⟩
+    · exact ⟨tk, by simp [Pool.modTask, getElem?_modify_ne _ _ _ _ e, h], rfl, fun _ => rfl, fun e' => absurd e'.symm e⟩
+  refine ⟨hr.nd, ?_, ?_, ?_, ?_⟩
+  · intro i hi
+    obtain ⟨tk, a, b⟩ := hr.run i hi
+    obtain ⟨tk', a', b', _⟩ := key i tk a
+    exact ⟨tk', a', b'.trans b⟩
+  · intro i hi
+    obtain ⟨tk, a, b, c, d⟩ := hr.can i hi
+    obtain ⟨tk', a', b', c', d'⟩ := key i tk a
+    by_cases e : i = t
+    · subst e
+      rw [hx] at a; cases a
+      exact ⟨tk', a', b'.trans b, by rw [d' rfl]; exact (hc hi).1, by rw [d' rfl]; exact (hc hi).2⟩
+    · exact ⟨tk', a', b'.trans b, by rw [c' e]; exact c, by rw [c' e]; exact d⟩
+  · intro i hi
+    obtain ⟨tk, a, b⟩ := hr.fin i hi
+    obtain ⟨tk', a', b', _⟩ := key i tk a
+    exact ⟨tk', a', b'.trans b⟩
+  · intro hl i tk' h hrel
+    obtain ⟨y, hy, rfl⟩ := getElem?_modify_some p.tasks t i f tk' h
+    refine hr.cpl hl i y hy ?_
+    split at hrel
+    · rename_i e; subst e
+      rw [hx] at hy; cases hy
+      rw [hf] at hrel; exact hrel
+    · exact hrel
+
 theorem nodup3_move12 {A B C : List Nat} (t : Nat) (h : (A ++ B ++ C).Nodup) (ht : t ∈ A) :
     (A.erase t ++ (B ++ [t]) ++ C).Nodup := by
   rw [List.nodup_iff_count] at h ⊢
